@@ -18,17 +18,24 @@ theorem add_source_shape :
 theorem reload_identical_noop (cfg : Cfg) (r : RT) (name : Bytes) (v : Version) (h : Handle)
     (hh : r.handles.find? (·.1 = name) = some (name, h)) (heq : h.hash = v.hash) :
     compileAndRun cfg r name v = r := by
-  simp [compileAndRun, hh, heq]
+  have : decision cfg r name v = .unchanged := by simp [decision, sameHash, hh, heq]
+  simp [compileAndRun, this]
 
 /-- a load that fails to compile leaves the store and the running programs exactly as they were -/
 theorem failed_compile_leaves_export (cfg : Cfg) (r : RT) (name : Bytes) (v : Version) (hc : v.compiles = false) :
     (compileAndRun cfg r name v).store = r.store ∧ (compileAndRun cfg r name v).handles = r.handles := by
   unfold compileAndRun
-  split
-  · split
-    · exact ⟨rfl, rfl⟩
-    · simp [compileAndRun.go, hc]
-  · simp [compileAndRun.go, hc]
+  have : decision cfg r name v = .unchanged ∨ decision cfg r name v = .compileError := by
+    unfold decision; split
+    · exact Or.inl rfl
+    · right; simp [hc]
+  rcases this with h | h <;> simp [h]
+
+/-- a load refused by the store keeps the previous version running (only the store may have
+    gained the metrics registered before the refusal — the recorded finding) -/
+theorem refused_load_keeps_previous (cfg : Cfg) (r : RT) (name : Bytes) (v : Version) (ps : Store)
+    (h : decision cfg r name v = .refused ps) : (compileAndRun cfg r name v).handles = r.handles := by
+  simp [compileAndRun, h]
 
 /-- a reload that keeps a declaration (same program, type, source, keys, kind) keeps that
     metric's accumulated values — and, the expiry being copied, its pending expiry: the new
